@@ -97,6 +97,10 @@ class Env:
         return e
 
 
+class TupleRet(list):
+    """what a helper called as `a, b = helper(...)` returns: one fragment per position"""
+
+
 class PageEval:
     def __init__(self, funcs=None, consts=None):
         self.notes = []
@@ -104,6 +108,7 @@ class PageEval:
         self.consts = consts or {}    # module-level names assigned exactly once (and never declared global): their value
         self.depth = 0
         self.cdepth = 0
+        self.want_tuple = {}          # helper nesting depth -> number of positions the caller unpacks
 
     def const(self, name, what):
         """fragment / class of a module-level constant, evaluated in an empty environment"""
@@ -115,7 +120,14 @@ class PageEval:
         finally:
             self.cdepth -= 1
 
-    def inline(self, fn, call, env):
+    def cond_ret(self, test, a, b):
+        if isinstance(a, TupleRet) or isinstance(b, TupleRet):
+            if not (isinstance(a, TupleRet) and isinstance(b, TupleRet) and len(a) == len(b)):
+                raise Unsupported('returns of different shapes')
+            return TupleRet([self.cond(test, x, y)] for x, y in zip(a, b))
+        return [self.cond(test, a, b)]
+
+    def inline(self, fn, call, env, positions=None):
         """a call of a module-level helper that returns page text: evaluate its body with the parameters bound
         to the fragments and taint classes of the arguments (fails closed: anything unusual raises Unsupported)"""
         if self.depth >= 4:
@@ -152,12 +164,17 @@ class PageEval:
             else:
                 raise Unsupported('helper argument %s of %s' % (prm, fn.name))
         self.depth += 1
+        if positions:
+            self.want_tuple[self.depth] = positions
         try:
             ret = self.run(fn.body, e2)
         finally:
+            self.want_tuple.pop(self.depth, None)
             self.depth -= 1
         if ret is None:
             raise Unsupported('helper %s returns nothing' % fn.name)
+        if bool(positions) != isinstance(ret, TupleRet):
+            raise Unsupported('helper %s: shape of the returned value' % fn.name)
         return ret
 
     # ---- classification of a raw (unescaped) expression -------------------------------
@@ -204,6 +221,11 @@ class PageEval:
                 return self.classify(node.func.value, env)
             if last == 'guess_type':
                 return 'trusted'
+            if name == 'getattr' and len(node.args) in (2, 3) and not node.keywords \
+                    and isinstance(node.args[1], ast.Constant) and isinstance(node.args[1].value, str):
+                # getattr(x, 'name'[, default]) is x.name (or the default)
+                cls = self.classify(ast.Attribute(value=node.args[0], attr=node.args[1].value, ctx=ast.Load()), env)
+                return join(cls, self.classify(node.args[2], env)) if len(node.args) == 3 else cls
             return 'tainted'
         if isinstance(node, (ast.BinOp, ast.BoolOp, ast.IfExp, ast.Tuple, ast.List, ast.JoinedStr,
                              ast.FormattedValue, ast.Compare, ast.Dict)):
@@ -403,6 +425,12 @@ class PageEval:
             return [('hole', RAW_CLS[self.classify(node, env)], src(node))]
         fmtstr = ''.join(n[1] for n in left)
         args = list(node.right.elts) if isinstance(node.right, ast.Tuple) else [node.right]
+        named = None
+        if isinstance(node.right, ast.Dict):
+            # `TEMPLATE % {'name': value, ...}` with literal keys: `%(name)s` takes the value of that key
+            if not all(isinstance(k, ast.Constant) and isinstance(k.value, str) for k in node.right.keys):
+                raise Unsupported('format mapping in ' + src(node))
+            named = {k.value: v for k, v in zip(node.right.keys, node.right.values)}
         out, pos, i = [], 0, 0
         for m in FMT.finditer(fmtstr):
             if m.start() > pos:
@@ -412,8 +440,19 @@ class PageEval:
             if conv == '%':
                 out.append(('lit', '%'))
                 continue
-            if m.group(1) or m.group(2) == '*' or m.group(3) == '*':
+            if m.group(2) == '*' or m.group(3) == '*' or bool(m.group(1)) != (named is not None):
                 raise Unsupported('format spec ' + m.group(0))
+            if named is not None:
+                if m.group(1) not in named:
+                    raise Unsupported('format key ' + m.group(0))
+                a = named[m.group(1)]
+                if conv in 'diouxXeEfFgG':
+                    out.append(('hole', 'trusted', '%' + conv + ' ' + src(a)))
+                elif conv == 's':
+                    out += self.frag(a, env)
+                else:
+                    out.append(('hole', RAW_CLS[self.classify(a, env)], src(a)))
+                continue
             if i >= len(args):
                 if len(args) != 1:
                     raise Unsupported('format arity in ' + src(node))
@@ -432,6 +471,8 @@ class PageEval:
                 out += self.frag(a, env)
             else:
                 out.append(('hole', RAW_CLS[self.classify(a, env)], src(a)))
+        if named is not None:
+            args = []
         if i != len(args):
             # a tuple-valued single argument such as hbytes(...) feeding several conversions
             if not (len(args) == 1 and i > 1):
@@ -505,6 +546,14 @@ class PageEval:
                     else:
                         env.cls[tgt.id] = self.classify(st.value, env)
                         env.frag[tgt.id] = self.frag(st.value, env)
+                elif isinstance(tgt, ast.Tuple) and isinstance(st.value, ast.Call) and isinstance(st.value.func, ast.Name) \
+                        and st.value.func.id in self.funcs and st.value.func.id not in PAGES \
+                        and st.value.func.id not in NOT_HELPERS and all(isinstance(t, ast.Name) for t in tgt.elts):
+                    # `a, b = helper(...)`: each name gets what the helper returns at its position
+                    got = self.inline(self.funcs[st.value.func.id], st.value, env, len(tgt.elts))
+                    for t, fr in zip(tgt.elts, got):
+                        env.frag[t.id] = list(fr)
+                        env.cls[t.id] = self.frag_class(fr)
                 elif isinstance(tgt, ast.Tuple):
                     cls = self.classify(st.value, env)
                     vals = st.value.elts if isinstance(st.value, ast.Tuple) and len(st.value.elts) == len(tgt.elts) else None
@@ -544,9 +593,9 @@ class PageEval:
                     r_rest = self.run(rest, env.copy())
                     if r_rest is None:
                         raise Unsupported('return inside if without a return after it')
-                    return [self.cond(st.test, r1, r_rest)]
+                    return self.cond_ret(st.test, r1, r_rest)
                 if r1 is not None and r2 is not None:
-                    return [self.cond(st.test, r1, r2)]
+                    return self.cond_ret(st.test, r1, r2)
                 if r1 is not None or r2 is not None:
                     raise Unsupported('return inside if')
                 for name in set(e1.frag) | set(e2.frag):
@@ -583,6 +632,12 @@ class PageEval:
                 v = st.value
                 if isinstance(v, ast.Call) and dotted(v.func) == 'Response':
                     ret = self.response_arg(v, env)
+                elif self.depth in self.want_tuple:
+                    if not (isinstance(v, ast.Tuple) and len(v.elts) == self.want_tuple[self.depth]
+                            and not any(isinstance(e, ast.Starred) for e in v.elts)):
+                        raise Unsupported('helper returns something else than the %d values its caller unpacks'
+                                          % self.want_tuple[self.depth])
+                    ret = TupleRet(self.frag(e, env) for e in v.elts)
                 elif isinstance(v, ast.Tuple):
                     ret = self.frag(v.elts[0], env)
                 elif v is not None:
